@@ -341,6 +341,11 @@ def dispatch_rule(f, P, rep, handlers):
             if tgt is None:
                 tgt = t['o']
             calls = [ci for ci, ct in b.calls() if ct.get('fn') in hfns and ci in b.reachable(tgt) and b.dominates(tgt, ci)]
+            if not calls:
+                # the arm fills the buffer itself (a handler inlined into the dispatcher); that every Ok(n != 0) is preceded
+                # by a fill is decided by C01.1 on the dispatcher as well
+                calls = [ci for ci, ct in b.calls() if any((ct.get('fn') or '').endswith(x) for x in FILLERS)
+                         and ci in b.reachable(tgt) and b.dominates(tgt, ci)]
             ok = explicit and bool(calls)
             rep.ob('C01.5', 'do_read arm %s' % name, ok, 'handled by %s' % short(b.blocks[calls[0]]['term']['fn']) if ok else 'no handler')
             if not ok:
